@@ -1286,6 +1286,10 @@ fin:
 	return res;
 }
 
+/* weekly and daily rules that match nothing must come to an end, there's
+ * no point in looking beyond the last year our calendars can reckon with */
+#define WLY_DLY_MAX_YEAR	(2099U)
+
 size_t
 rrul_fill_wly(echs_instant_t *restrict tgt, size_t nti, rrulsp_t rr)
 {
@@ -1416,6 +1420,10 @@ rrul_fill_wly(echs_instant_t *restrict tgt, size_t nti, rrulsp_t rr)
 				}
 				this_maxd =
 					echs_scale_ndim(srcsca, this_y, this_m);
+			}
+			if (UNLIKELY(this_y > WLY_DLY_MAX_YEAR)) {
+				/* nothing's going to match anymore */
+				goto fin;
 			}
 
 			for (ENUM_INIT(e, iS, iM, iH);
@@ -1564,6 +1572,10 @@ rrul_fill_dly(echs_instant_t *restrict tgt, size_t nti, rrulsp_t rr)
 			     maxd = echs_scale_ndim(srcsca, y, m);
 		     }
 	     })) {
+		if (UNLIKELY(y > WLY_DLY_MAX_YEAR || y > rr->until.y)) {
+			/* nothing's going to match anymore */
+			break;
+		}
 		/* we're subtractive, so check if the current ymd matches
 		 * if not, just continue and check the next candidate */
 		if (!(wd_mask & (1U << w))) {
